@@ -74,6 +74,10 @@ def gen(rng, tier, shard, nshards):
             if cls == 'unnormalized':
                 sd2 = G.rand_shape(rng, 2, dim=3, clamped_only=True, maxextra=2, maxdeg=3, normalize=False,
                                    lohi=rng.choice([(0.0, 2.0), (2.0, 5.0)]))
+                if rng.random() < 0.6:      # a different range in v than in u
+                    a2, b2 = rng.choice([(1.0, 3.0), (-2.0, -1.0), (0.0, 0.5)])
+                    kv = sd2['kvs'][1]
+                    sd2['kvs'][1] = [a2 + (k - kv[0]) / (kv[-1] - kv[0]) * (b2 - a2) for k in kv]
             else:
                 sd2 = G.rand_shape(rng, 2, dim=3, kvcls='unclamped', maxextra=3, maxdeg=3)
             yield {'kind': 'plain', 'sd': sd2, 'nu': rng.randint(3, 6), 'nv': rng.randint(7, 9), 'spacing': 1,
